@@ -153,6 +153,68 @@ pub fn corr(tier: &str, seed: u64, c: &mut Corr) {
         let _ = std::fs::remove_file(&inp);
         let _ = std::fs::remove_file(&out);
     }
+    // ---- --export-id: image size and the pixel box the object covers, against the model's export plan.
+    // Geometry on a grid of 4 and scales with small denominators, so that the box falls on whole pixels.
+    let n2 = if tier == "thorough" { 600 } else { 80 };
+    for i in 0..n2 {
+        let (pw, ph) = (4 * rng.range(20, 40) as u32, 4 * rng.range(20, 40) as u32);
+        let (bw, bh) = (4 * rng.range(1, 8) as u32, 4 * rng.range(1, 8) as u32);
+        let (bx, by) = (4 * rng.range(0, 10) as u32, 4 * rng.range(0, 10) as u32);
+        let svg = format!(r#"<svg xmlns="http://www.w3.org/2000/svg" width="{pw}" height="{ph}"><rect id="a" x="{bx}" y="{by}" width="{bw}" height="{bh}" fill="green"/></svg>"#);
+        let page = rng.chance(1, 2);
+        let (aw, ah) = if page { (pw, ph) } else { (bw, bh) };
+        let k = *rng.pick(&[(1u32, 2u32), (1, 1), (2, 1), (3, 1), (1, 4), (3, 2), (5, 4)]);
+        let (w, h, z): (Option<u32>, Option<u32>, Option<f32>) = match rng.below(5) {
+            0 => (None, None, None),
+            1 => (Some(aw * k.0 / k.1), None, None),
+            2 => (None, Some(ah * k.0 / k.1), None),
+            3 => (Some(aw * k.0 / k.1), Some(ah * k.0 / k.1), None),
+            _ => (None, None, Some(k.0 as f32 / k.1 as f32)),
+        };
+        let inp = dir.join(format!("x{}.svg", i));
+        let out = dir.join(format!("x{}.png", i));
+        let _ = std::fs::write(&inp, &svg);
+        let _ = std::fs::remove_file(&out);
+        let mut args: Vec<String> = vec!["--quiet".into(), "--export-id".into(), "a".into()];
+        if page { args.push("--export-area-page".into()); }
+        if let Some(w) = w { args.extend(["-w".to_string(), w.to_string()]); }
+        if let Some(h) = h { args.extend(["-h".to_string(), h.to_string()]); }
+        if let Some(z) = z { args.extend(["-z".to_string(), format!("{}", z)]); }
+        args.push(inp.display().to_string());
+        args.push(out.display().to_string());
+        let r = run("resvg", &args, None, &dir);
+        // the box the command works from
+        let o = lib_options(None, 96.0, w, h);
+        let Ok(t) = usvg::Tree::from_str(&svg, &o) else { continue };
+        let Some(bb) = t.node_by_id("a").and_then(|n| n.abs_layer_bounding_box()) else { continue };
+        let ans = if r.code == Some(0) {
+            match std::fs::read(&out).ok().and_then(|d| decode_png(&d)) {
+                Some((gw, gh, pix)) => {
+                    let (mut x0, mut y0, mut x1, mut y1) = (i64::MAX, i64::MAX, i64::MIN, i64::MIN);
+                    for (k, p) in pix.chunks(4).enumerate() {
+                        if p[3] != 0 {
+                            let (x, y) = ((k as u32 % gw) as i64, (k as u32 / gw) as i64);
+                            x0 = x0.min(x);
+                            y0 = y0.min(y);
+                            x1 = x1.max(x + 1);
+                            y1 = y1.max(y + 1);
+                        }
+                    }
+                    format!("{} {} {} {} {} {}", gw, gh, x0, y0, x1, y1)
+                }
+                None => "no-png".to_string(),
+            }
+        } else {
+            "err".to_string()
+        };
+        let f = |x: Option<u32>| x.map(|v| v.to_string()).unwrap_or_else(|| "-".into());
+        c.emit(
+            &format!("exportplan {} {} {} {} {} {} {} {} {} {}", t.size().to_int_size().width(), t.size().to_int_size().height(), hx(bb.x()), hx(bb.y()), hx(bb.width()), hx(bb.height()), f(w), f(h), z.map(hx).unwrap_or_else(|| "-".into()), page as u8),
+            &ans,
+        );
+        let _ = std::fs::remove_file(&inp);
+        let _ = std::fs::remove_file(&out);
+    }
     let _ = std::fs::remove_dir_all(&dir);
 }
 
@@ -336,31 +398,55 @@ pub fn search(tier: &str, seed: u64, s: &mut Search) {
         }
         let _ = std::fs::remove_file(&out);
     }
-    // ---- --export-id: existing, missing, zero-sized
-    for i in 0..(if tier == "thorough" { 200 } else { 30 } * mult) {
-        let svg = format!(
-            r#"<svg xmlns="http://www.w3.org/2000/svg" width="120" height="100"><g transform="translate({} 5) scale({})"><rect id="shape" x="10" y="10" width="{}" height="30" fill="green" stroke="black"/><path id="flat" d="M 5 5 h 40"/><g id="empty"/></g><text id="t" x="5" y="90" font-size="14">Text</text></svg>"#,
-            rng.range(0, 20), *rng.pick(&["1", "1.5", "0.5"]), rng.range(5, 40)
-        );
+    // ---- --export-id: existing, missing, zero-sized; size, pixels and placement against the library
+    for i in 0..(if tier == "thorough" { 400 } else { 60 } * mult) {
+        let (pw, ph) = (120u32, 100u32);
+        let gts = format!("translate({} 4) scale({})", 4 * rng.range(0, 5), *rng.pick(&["1", "1.5", "0.5"]));
+        let rect = format!(r#"<rect id="shape" x="8" y="8" width="{}" height="32" fill="{}" stroke="black" stroke-width="4"/>"#, 4 * rng.range(2, 10), *rng.pick(&["green", "green", "none", "#0a08"]));
+        let flat = r#"<path id="flat" d="M 5 5 h 40"/>"#;
+        let text = r#"<text id="t" x="4" y="90" font-size="14">Text</text>"#;
+        let head = format!(r#"<svg xmlns="http://www.w3.org/2000/svg" width="{}" height="{}">"#, pw, ph);
+        let svg = format!(r#"{head}<g id="grp" transform="{gts}">{rect}{flat}<g id="empty"/></g>{text}</svg>"#);
+        let id = *rng.pick(&["shape", "shape", "grp", "t", "flat", "empty", "missing", ""]);
+        // the document that contains only the exported node under its ancestors' transforms
+        let single = match id {
+            "shape" => Some(format!(r#"{head}<g transform="{gts}">{rect}</g></svg>"#)),
+            "grp" => Some(format!(r#"{head}<g id="grp" transform="{gts}">{rect}{flat}<g id="empty"/></g></svg>"#)),
+            "t" => Some(format!(r#"{head}{text}</svg>"#)),
+            _ => None,
+        };
         let inp = dir.join(format!("e{}.svg", i));
         let out = dir.join(format!("e{}.png", i));
         let _ = std::fs::write(&inp, &svg);
         let _ = std::fs::remove_file(&out);
-        let id = *rng.pick(&["shape", "shape", "t", "flat", "empty", "missing", ""]);
         let mut args: Vec<String> = FONT_ARGS.iter().map(|s| s.to_string()).collect();
         args.extend(["--export-id".into(), id.to_string()]);
-        if rng.chance(1, 3) { args.push("--export-area-page".into()); }
-        if rng.chance(1, 3) { args.extend(["-z".into(), "2".into()]); }
+        let page = rng.chance(1, 2);
+        if page { args.push("--export-area-page".into()); }
+        let (mut w, mut h, mut z): (Option<u32>, Option<u32>, Option<f32>) = (None, None, None);
+        match rng.below(7) {
+            0 => z = Some(2.0),
+            1 => z = Some(0.5),
+            2 => w = Some(rng.range(10, 300) as u32),
+            3 => h = Some(rng.range(10, 300) as u32),
+            4 => { w = Some(rng.range(10, 200) as u32); h = Some(rng.range(10, 200) as u32); }
+            _ => {}
+        }
+        if let Some(w) = w { args.extend(["-w".into(), w.to_string()]); }
+        if let Some(h) = h { args.extend(["-h".into(), h.to_string()]); }
+        if let Some(z) = z { args.extend(["-z".into(), z.to_string()]); }
+        let bg = *rng.pick(&[None, None, Some("white"), Some("#0f08")]);
+        if let Some(b) = bg { args.extend(["--background".into(), b.to_string()]); }
         args.extend([inp.display().to_string(), out.display().to_string()]);
         let r = run("resvg", &args, None, &dir);
         let key = format!("export {:?} {}", args[NF..args.len() - 2].join(" "), svg);
-        s.case("export-id", &key, r.code == Some(0));
+        s.case(&format!("export-id-{}{}", if id.is_empty() { "none" } else { id }, if page { "-page" } else { "" }), &key, r.code == Some(0));
         if r.timed_out || r.signal.is_some() || r.code == Some(101) {
             s.finding("oracle:C20:export-id:crash", &format!("code {:?} signal {:?}: {}", r.code, r.signal, r.stderr.lines().last().unwrap_or("")), &key);
             continue;
         }
         let exists = std::fs::metadata(&out).map(|m| m.len() > 0).unwrap_or(false);
-        let should_work = matches!(id, "shape" | "t");
+        let should_work = matches!(id, "shape" | "t" | "grp");
         if should_work && (r.code != Some(0) || !exists) {
             s.finding("oracle:C20:export-id:existing-id-fails", &format!("--export-id {} failed: code {:?} {}", id, r.code, r.stderr.trim()), &key);
         }
@@ -370,10 +456,17 @@ pub fn search(tier: &str, seed: u64, s: &mut Search) {
         if r.code != Some(0) && (r.stderr.trim().is_empty() || exists) {
             s.finding("oracle:C20:export-id:failure-not-clean", &format!("code {:?}, stderr {:?}, output exists: {}", r.code, r.stderr.trim(), exists), &key);
         }
+        if should_work && r.code == Some(0) && exists {
+            if let Some((gw, gh, gpix)) = std::fs::read(&out).ok().and_then(|d| decode_png(&d)) {
+                export_oracle(s, &key, &svg, single.as_deref().unwrap(), id, page, (w, h, z), bg, (gw, gh, &gpix));
+            } else {
+                s.finding("oracle:C20:output-not-a-png", "exit code 0 but the output does not decode as PNG", &key);
+            }
+        }
         let _ = std::fs::remove_file(&inp);
         let _ = std::fs::remove_file(&out);
     }
-    // ---- the usvg command: its output is the library serialisation of the same input
+    // ---- the usvg command: its output is the library serialisation of the same input with the same options
     for (k, (_class, data, path)) in inputs.iter().enumerate().filter(|(k, _)| k % 3 == 0) {
         let Some(p) = path else { continue };
         let Ok(text) = std::str::from_utf8(data) else { continue };
@@ -381,25 +474,181 @@ pub fn search(tier: &str, seed: u64, s: &mut Search) {
             continue; // fonts: the two sides would need the same database; text is covered through resvg above
         }
         let out = dir.join(format!("u{}.svg", k));
-        let a: Vec<String> = vec!["--quiet".into(), p.display().to_string(), out.display().to_string()];
+        let mut a: Vec<String> = vec!["--quiet".into()];
+        let mut wo = usvg::WriteOptions::default();
+        // the defaults of the command (its help text): indent 4, attributes not indented, precision 8
+        wo.indent = xmlwriter_indent("4");
+        wo.attributes_indent = xmlwriter_indent("none");
+        if rng.chance(1, 2) {
+            let cp = rng.range(2, 9) as u8;
+            a.extend(["--coordinates-precision".into(), cp.to_string()]);
+            wo.coordinates_precision = cp;
+        }
+        if rng.chance(1, 2) {
+            let tp = rng.range(2, 9) as u8;
+            a.extend(["--transforms-precision".into(), tp.to_string()]);
+            wo.transforms_precision = tp;
+        }
+        if rng.chance(1, 3) {
+            let v = *rng.pick(&["none", "0", "2", "tabs"]);
+            a.extend(["--indent".into(), v.into()]);
+            wo.indent = xmlwriter_indent(v);
+        }
+        if rng.chance(1, 3) {
+            let v = *rng.pick(&["none", "1", "3", "tabs"]);
+            a.extend(["--attrs-indent".into(), v.into()]);
+            wo.attributes_indent = xmlwriter_indent(v);
+        }
+        if rng.chance(1, 3) {
+            a.extend(["--id-prefix".into(), "p_".into()]);
+            wo.id_prefix = Some("p_".into());
+        }
+        let optkey = a[1..].join(" ");
+        a.extend([p.display().to_string(), out.display().to_string()]);
         let r = run("usvg", &a, None, &dir);
         let o = crate::corpus::opts_for(Some(p));
-        let lib = pan::catch(|| usvg::Tree::from_data(data, &o).ok().map(|t| t.to_string(&usvg::WriteOptions::default())));
-        s.case("usvg", &p.display().to_string(), r.code == Some(0));
+        let lib = pan::catch(|| usvg::Tree::from_data(data, &o).ok().map(|t| t.to_string(&wo)));
+        let key = format!("{} [{}]", p.display(), optkey);
+        s.case("usvg", &key, r.code == Some(0));
         match (r.code, lib) {
             (Some(0), Ok(Some(want))) => {
                 let got = std::fs::read_to_string(&out).unwrap_or_default();
                 if got.trim_end() != want.trim_end() {
-                    s.finding("oracle:C20:usvg-output-differs-from-library", "the usvg command's output differs from Tree::to_string of the same input", &p.display().to_string());
+                    let mut blamed = vec![];
+                    for name in ["--coordinates-precision", "--transforms-precision", "--indent", "--attrs-indent", "--id-prefix"] {
+                        if optkey.contains(name) {
+                            blamed.push(name.trim_start_matches("--"));
+                        }
+                    }
+                    let cause = if blamed.is_empty() { "default-options".to_string() } else { blamed.join("+") };
+                    s.finding(&format!("oracle:C20:usvg-output-differs-from-library({})", cause), "the usvg command's output differs from Tree::to_string of the same input with the same options", &key);
                 }
             }
-            (Some(0), _) => s.finding("oracle:C20:usvg-success-where-library-fails", "usvg exits 0 where the library rejects the input", &p.display().to_string()),
-            (code, Ok(Some(_))) if r.signal.is_some() || code == Some(101) => s.finding("oracle:C20:usvg-crash", &format!("code {:?} signal {:?}", code, r.signal), &p.display().to_string()),
+            (Some(0), _) => s.finding("oracle:C20:usvg-success-where-library-fails", "usvg exits 0 where the library rejects the input", &key),
+            (code, Ok(Some(_))) if r.signal.is_some() || code == Some(101) => s.finding("oracle:C20:usvg-crash", &format!("code {:?} signal {:?}", code, r.signal), &key),
             _ => {}
         }
         let _ = std::fs::remove_file(&out);
     }
     let _ = std::fs::remove_dir_all(&dir);
+}
+
+fn xmlwriter_indent(v: &str) -> usvg::Indent {
+    match v {
+        "none" => usvg::Indent::None,
+        "tabs" => usvg::Indent::Tabs,
+        n => usvg::Indent::Spaces(n.parse().unwrap()),
+    }
+}
+
+fn bg_color(b: &str) -> Option<tiny_skia::Color> {
+    let c = svgtypes_color::parse(b)?;
+    Some(tiny_skia::Color::from_rgba8(c.0, c.1, c.2, c.3))
+}
+
+/// through the PNG encoder, as the command's output went
+fn via_png(pm: &tiny_skia::Pixmap) -> Option<Vec<u8>> {
+    pm.encode_png().ok().and_then(|d| decode_png(&d)).map(|t| t.2)
+}
+
+/// `--export-id`: the written image against the library.
+///  * without `--export-area-page`: the size rules applied to the object's box, one background fill, and
+///    `resvg::render_node` with the scale that maps the box onto the image — pixel for pixel;
+///  * with it: the page-sized rendering of the document that contains only that node (same options):
+///    everything away from the object's box pixel for pixel (background), and the whole image when the
+///    object's scaled box falls on whole pixels (otherwise the placement is only defined up to a pixel).
+#[allow(clippy::too_many_arguments)]
+fn export_oracle(s: &mut Search, key: &str, svg: &str, single: &str, id: &str, page: bool, fit: (Option<u32>, Option<u32>, Option<f32>), bg: Option<&str>, got: (u32, u32, &[u8])) {
+    let (gw, gh, gpix) = got;
+    let o = lib_options(None, 96.0, fit.0, fit.1);
+    let lib = pan::catch(|| {
+        let t = usvg::Tree::from_str(svg, &o).ok()?;
+        let node = t.node_by_id(id)?;
+        let bbox = node.abs_layer_bounding_box()?;
+        let area = if page { t.size().to_int_size() } else { bbox.size().to_int_size() };
+        let target = match fit {
+            (Some(w), Some(h), _) => area.scale_to(tiny_skia::IntSize::from_wh(w, h)?),
+            (Some(w), None, _) => area.scale_to_width(w)?,
+            (None, Some(h), _) => area.scale_to_height(h)?,
+            (None, None, Some(z)) => area.scale_by(z)?,
+            _ => area,
+        };
+        let (sx, sy) = (target.width() as f32 / area.width() as f32, target.height() as f32 / area.height() as f32);
+        let mut pm = tiny_skia::Pixmap::new(target.width(), target.height())?;
+        if let Some(c) = bg.and_then(bg_color) {
+            pm.fill(c);
+        }
+        let ts = tiny_skia::Transform::from_scale(sx, sy);
+        if page {
+            let t1 = usvg::Tree::from_str(single, &o).ok()?;
+            resvg::render(&t1, ts, &mut pm.as_mut());
+        } else {
+            resvg::render_node(node, ts, &mut pm.as_mut());
+        }
+        Some((pm, bbox, sx, sy))
+    });
+    let Ok(Some((want, bbox, sx, sy))) = lib else {
+        s.finding("oracle:C20:export-id:success-where-the-library-fails", "the command exported a node the library cannot", key);
+        return;
+    };
+    let mode = if page { "area-page" } else { "object" };
+    if (gw, gh) != (want.width(), want.height()) {
+        s.finding(&format!("oracle:C20:export-id:{}:size-differs-from-the-documented-rule", mode), &format!("PNG is {}x{}, the size options applied to the exported area give {}x{}", gw, gh, want.width(), want.height()), key);
+        return;
+    }
+    let Some(wpix) = via_png(&want) else { return };
+    let w = gw as usize;
+    if !page {
+        let nd = gpix.chunks(4).zip(wpix.chunks(4)).filter(|(a, b)| a != b).count();
+        if nd > 0 {
+            s.finding("oracle:C20:export-id:object:pixels-differ-from-library", &format!("{} of {} pixels differ from resvg::render_node on a canvas of the same size with the same background and scale", nd, gw * gh), key);
+        }
+        return;
+    }
+    // the object's layer box in output pixels (a path's layer box is its fill box: the stroke is cut at it,
+    // as in resvg::render_node itself); outside it there is nothing but the background
+    let (x0, y0, x1, y1) = (bbox.x() * sx, bbox.y() * sy, bbox.right() * sx, bbox.bottom() * sy);
+    let mut blank = tiny_skia::Pixmap::new(gw, gh).unwrap();
+    if let Some(c) = bg.and_then(bg_color) {
+        blank.fill(c);
+    }
+    let Some(bpix) = via_png(&blank) else { return };
+    let away = |x: usize, y: usize| (x as f32) < x0 - 2.0 || (x as f32) > x1 + 2.0 || (y as f32) < y0 - 2.0 || (y as f32) > y1 + 2.0;
+    let mut nd_away = 0;
+    let mut first = None;
+    for (k, (a, b)) in gpix.chunks(4).zip(bpix.chunks(4)).enumerate() {
+        if a != b && away(k % w, k / w) {
+            nd_away += 1;
+            first.get_or_insert((k % w, k / w, [a[0], a[1], a[2], a[3]], [b[0], b[1], b[2], b[3]]));
+        }
+    }
+    if nd_away > 0 {
+        let (x, y, a, b) = first.unwrap();
+        let what = if bg.is_some() && a[..3] == b[..3] { "background-not-filled-once" } else { "content-outside-the-objects-box" };
+        s.finding(&format!("oracle:C20:export-id:area-page:{}", what), &format!("{} pixels away from the object's box differ from the background; at ({}, {}): {:?} vs {:?}", nd_away, x, y, a, b), key);
+        return;
+    }
+    let whole = |v: f32| (v - v.round()).abs() < 1e-3;
+    if whole(x0) && whole(y0) && whole(x1) && whole(y1) {
+        // inside the box: the page rendering of the node-only document
+        let (bx0, by0, bx1, by1) = (x0.round().max(0.0) as usize, y0.round().max(0.0) as usize, (x1.round().max(0.0) as usize).min(w), (y1.round().max(0.0) as usize).min(gh as usize));
+        let mut expect = bpix.clone();
+        for y in by0..by1 {
+            for x in bx0..bx1 {
+                let k = (y * w + x) * 4;
+                expect[k..k + 4].copy_from_slice(&wpix[k..k + 4]);
+            }
+        }
+        let mut g = tiny_skia::Pixmap::new(gw, gh).unwrap();
+        let mut q = tiny_skia::Pixmap::new(gw, gh).unwrap();
+        // straight alpha on both sides: compared as such
+        g.data_mut().copy_from_slice(gpix);
+        q.data_mut().copy_from_slice(&expect);
+        let (ok, why) = crate::rend::similar(&g, &q, 8);
+        if !ok {
+            s.finding("oracle:C20:export-id:area-page:object-misplaced-or-wrongly-scaled", &format!("differs from the page rendering of the node-only document cut at the object's box: {}", why), key);
+        }
+    }
 }
 
 /// the few colours the search passes to --background
